@@ -85,12 +85,19 @@ func VH_C08() {
 		prev = k
 		members = append(members, k, i)
 	}
+	if vBool() {
+		// a large group (more entries than any fixed-size scratch), keys out of order
+		members = nil
+		for i := 8; i >= 0; i-- {
+			members = append(members, "m"+string(rune('0'+i)), i)
+		}
+	}
 	shared := Group("g", members...).(*gkvp)
 	lg := root
 	if vBool() {
 		flags |= LattrsR
 		root.SetAttrs(NewAttr("p", 1), shared)
-		lg = root.New("child").SetWriter(&recW{0, rec}).SetErrorWriter(&recW{0, rec}).SetAttrs(NewAttr("c", 2))
+		lg = root.New("child").SetWriter(&recW{0, rec}).SetErrorWriter(&recW{0, rec}).SetAttrs(NewAttr("c", 2), NewAttr("p", 9)) // "p" is also bound to the parent
 	} else {
 		root.SetAttrs(NewAttr("z", 1), NewAttr("y", 2), NewAttr("k", 0)) // "k" collides with a call-site key below
 	}
